@@ -68,11 +68,15 @@ def run(ctx):
                 continue
         else:
             els = ["C"] * 6 + ["N"] * 3 + ["O"] * 2 + ["S", "P", "B", "F", "Cl", "Br", "I"] + [rng.choice(EXTRA)] * 2
-            m = random_tree_mol(rng, rng.choice([2, 4, 8, 15]), elements=els, p_ring=0.2, p_double=0.3, p_triple=0.1,
+            m = random_tree_mol(rng, rng.choice([2, 4, 8, 15] * 8 + [80, 300]), elements=els, p_ring=0.2, p_double=0.3, p_triple=0.1,
                                 p_bracket=0.35, p_chiral=rng.choice([0, 0.15, 0.3]), p_stereo=rng.choice([0, 0.1]), table=gen_table)
         if not m.atoms:
             continue
-        s, order, _, _ = spell(m, rng)
+        try:
+            s, order, _, _ = spell(m, rng)
+        except ValueError:
+            ctx.count("too_many_open_labels")
+            continue
         payload = {"smiles": s, "table": table}
         try:
             mm = read_smiles(s)
